@@ -13,7 +13,45 @@ func histSuite(name, monitor, rule string, quick, thorough, nops int, want map[s
 	}})
 }
 
+// K0 (known finding, C05): revoking an access token whose lifetime has already elapsed answers 200
+// and leaves the grant in place, so the refresh token of the same grant keeps working.
+func scenarioRevokeExpired(ctx *RunCtx) {
+	for _, fl := range []string{"copy", "alias"} {
+		spec := WorldSpec{Profile: "openid", Flavour: fl, Static: baseClients(ctx.R), Opts: []Opt{
+			{Name: "WithScopes", Scopes: serverScopes}, {Name: "WithAuthorizationCodeGrant"},
+			{Name: "WithRefreshTokenGrant", Z: 1000}, {Name: "WithTokenRevocation"}, {Name: "WithTokenIntrospection"},
+			{Name: "WithTokenLifetime", Z: 40}}}
+		g, err := NewSysGen(ctx.R, spec)
+		if err != nil {
+			panic(err)
+		}
+		p := Params{Redirect: "https://c2.example/cb", RespType: "code", Scopes: "openid email", State: "st-1"}
+		nav := g.do(Op{Kind: "Authorize", Client: 2, Params: p, PolicyAvail: true, Pol: Pol{Kind: "PolSuccess", Sub: "alice", Granted: "openid email"}})
+		tok := g.do(Op{Kind: "Token", Grant: "authorization_code", Cred: Cred{ID: 2, OK: true}, Code: nav.NCode, Redirect: p.Redirect, HG: "HgOk", BA: "BaApprove"})
+		if tok.Kind != "Tokens" || tok.Rt == 0 {
+			continue
+		}
+		g.doTick(45)
+		rv := g.do(Op{Kind: "Revoke", Cred: Cred{ID: 2, OK: true}, Tok: PTok{Kind: "PExact", H: tok.At}, Allowed: true})
+		rf := g.do(Op{Kind: "Token", Grant: "refresh_token", Cred: Cred{ID: 2, OK: true}, Refresh: tok.Rt, HG: "HgOk", BA: "BaApprove"})
+		ctx.AddCase(g.Case("scenario:revoke-expired-access-token/" + fl))
+		if rv.Kind == "Ok" && rf.Kind == "Tokens" {
+			ctx.Meta.Findings = append(ctx.Meta.Findings, Finding{Property: "C05", Signature: "revoke:expired-access-token:refresh-survives",
+				What: "POST /revoke of an access token whose lifetime had elapsed answered 200 and the refresh token of the same grant still produced tokens (" + fl + " storage)",
+				Replay: map[string]any{"Spec": spec, "Ops": g.Ops, "Obs": g.Obs}})
+		}
+	}
+}
+
 func init() {
+	register(&Suite{Name: "c05", Run: func(ctx *RunCtx) {
+		scenarioRevokeExpired(ctx)
+		runSysHistories(ctx, ctx.N(140, 5000), 36, map[string]bool{"refresh": true, "implicit": true},
+			map[string]int{"authorize": 12, "callback": 4, "par": 1, "code": 14, "refresh": 10, "cc": 5, "query": 40, "tick": 8, "bc": 2, "poll": 3, "notify": 1}, 40, []string{"copy", "alias"}, "c05")
+		ctx.Meta.Rule = "issuance (opaque and JWT, all grant types), refresh, revocation by owning or other client, code replay, ticks, then presentation of exact, jti-only and forged terms (truncated, extended, re-signed, alg none, edited, other issuer, non-canonical signature) at /introspect, /userinfo, TokenInfo and TokenInfoFromRequest; distinct by projected trace; non-trivial = at least one accepted and one refused operation"
+		ctx.writeSysCases("mon_C05", true)
+		ctx.writeCasesJSON()
+	}})
 	histSuite("c03", "mon_C03", "interleaved authorizations for several clients/users, redemptions by the right or another client with right/wrong/absent redirect_uri and code_verifier (both methods), ticks across the 60 s code lifetime, replays, then uses of the resulting tokens",
 		120, 4000, 34, map[string]bool{"pkce": true, "refresh": true},
 		map[string]int{"authorize": 20, "callback": 8, "par": 3, "code": 26, "refresh": 8, "cc": 1, "query": 18, "tick": 8, "bc": 1, "poll": 1, "notify": 1}, 35)
